@@ -381,7 +381,7 @@ def RefOkG (env : Env) (rets : NodeId → Url) (s : RState) (D : Doc) (id : Node
   ∀ n, D.st.get? id = some n →
     (n.ref ≠ "" →
       ∃ info t, lookupNat id s.infos = some info ∧ info.resolvedRef = some t ∧ GDesig env rets s D id n.ref t) ∧
-    (n.dynamicRef ≠ "" →
+    (D.draft = .d2020 → n.dynamicRef ≠ "" →      -- `$dynamicRef` is a keyword of 2020-12 documents only
       ∃ info t, lookupNat id s.infos = some info ∧ info.resolvedDynamicRef = some t ∧
         GDesig env rets s D id n.dynamicRef t)
 
@@ -566,7 +566,8 @@ theorem resolveRefsLoop_G (env : Env) (top : NodeId) (recDoc : ResolveDoc) (hrec
           (∀ r, r ≠ root → Registered s1 r → s2.doc? r = s1.doc? r) ∧
           (∀ i t, lookupNat id s1.infos = some i → i.resolvedRef = some t →
             ∃ i', lookupNat id s2.infos = some i' ∧ i'.resolvedRef = some t) ∧
-          (n.dynamicRef ≠ "" → ∃ info t, lookupNat id s2.infos = some info ∧ info.resolvedDynamicRef = some t ∧
+          (d.draft = .d2020 → n.dynamicRef ≠ "" →
+            ∃ info t, lookupNat id s2.infos = some info ∧ info.resolvedDynamicRef = some t ∧
             GDesig env rets2 s2 ⟨env.st, d.draft, root⟩ id n.dynamicRef t) := by
         split at h2
         · rw [bind_eq_ok] at h2
@@ -582,7 +583,7 @@ theorem resolveRefsLoop_G (env : Env) (top : NodeId) (recDoc : ResolveDoc) (hrec
           rw [hdr1] at a8
           have hidS : (lookupNat id s1.infos).isSome = true :=
             done_lookup_isSome ((hg1.docs root d1 hd1).done id hid).1
-          refine ⟨rets2, a1, a2, a3, a4, a5, ?_, fun _ => ?_⟩
+          refine ⟨rets2, a1, a2, a3, a4, a5, ?_, fun _ _ => ?_⟩
           · intro i t hi ht
             rw [hi] at a7
             exact ⟨_, a7, ht⟩
@@ -595,7 +596,9 @@ theorem resolveRefsLoop_G (env : Env) (top : NodeId) (recDoc : ResolveDoc) (hrec
           simp only [Res.ok.injEq] at h2
           subst h2
           exact ⟨rets1, fun _ _ => rfl, hg1, Grow.refl _, fun _ _ _ => rfl, fun _ _ _ => rfl,
-            fun i t hi ht => ⟨i, hi, ht⟩, fun h => absurd (by simpa using h) hne⟩
+            fun i t hi ht => ⟨i, hi, ht⟩, fun h20 h => absurd (by
+              have : s1.draftOf root = .d2020 := by unfold RState.draftOf; rw [hd1]; exact hdr1.trans h20
+              simpa [this] using h) hne⟩
       obtain ⟨rets2, ag2, hg2, gr2, k2, dc2, r2, r2d⟩ := g2
       obtain ⟨d2, hd2, _, hdr2⟩ := gr2.doc root d1 hd1
       obtain ⟨rets3, ag3, hg3, gr3, k3, dc3, ok3⟩ :=
@@ -632,8 +635,8 @@ theorem resolveRefsLoop_G (env : Env) (top : NodeId) (recDoc : ResolveDoc) (hrec
             refine ⟨i2, t, by rw [e3]; exact hi2, ht2, ?_⟩
             exact gDesig_grow env (gr2.trans gr3) (agree_trans ag2 ag3 gr2.registered) ⟨env.st, d.draft, root⟩
               (gr1.registered root (by unfold Registered; rw [hd]; rfl)) x n.ref t hdes
-          · intro hne
-            obtain ⟨i2, t, hi2, ht2, hdes⟩ := r2d hne
+          · intro h20 hne
+            obtain ⟨i2, t, hi2, ht2, hdes⟩ := r2d h20 hne
             have e3 := k3 x hxr (by rw [hi2]; rfl)
             refine ⟨i2, t, by rw [e3]; exact hi2, ht2, ?_⟩
             exact gDesig_grow env gr3 ag3 ⟨env.st, d.draft, root⟩
@@ -882,7 +885,8 @@ theorem gInv_init (env : Env) (top : NodeId) (rets : NodeId → Url) : GInv env 
   · intro e he; simp at he
 
 /-- Schema.Resolve under the freshness assumption: the final state satisfies the invariant of all
-    documents, and every `$ref` of `root.all()` has the designated target -/
+    documents, and every `$ref` of `root.all()` has the designated target (and, in a 2020-12 document, every
+    `$dynamicRef`: under draft-07 it is an unknown keyword, left unresolved) -/
 theorem resolve_G (env : Env) (fuel : Nat) (root : NodeId) (base : String) (rs : Resolved)
     (hfresh : LoaderFresh env root) (h : resolve env fuel root base = .ok rs) :
     ∃ s b d rets, retrievalOf base = .ok b ∧ rets root = b ∧ s.doc? root = some d ∧ rs.draft = d.draft ∧
@@ -890,7 +894,8 @@ theorem resolve_G (env : Env) (fuel : Nat) (root : NodeId) (base : String) (rs :
       ∀ id ∈ allNodes env.st (env.st.size + 2) [root], ∀ n, env.st.get? id = some n →
         (n.ref ≠ "" → ∃ info t, lookupNat id rs.infos = some info ∧ info.resolvedRef = some t ∧
           GDesig env rets s ⟨env.st, rs.draft, root⟩ id n.ref t) ∧
-        (n.dynamicRef ≠ "" → ∃ info t, lookupNat id rs.infos = some info ∧ info.resolvedDynamicRef = some t ∧
+        (rs.draft = .d2020 → n.dynamicRef ≠ "" →
+          ∃ info t, lookupNat id rs.infos = some info ∧ info.resolvedDynamicRef = some t ∧
           GDesig env rets s ⟨env.st, rs.draft, root⟩ id n.dynamicRef t) := by
   obtain ⟨s, b, d, hb, hs, hd, _, hdr, _, hinfos⟩ := resolve_ok' env fuel root base rs h
   obtain ⟨rets, _, hret, hg, _, d', hd', hok⟩ :=
@@ -915,8 +920,8 @@ theorem resolve_G (env : Env) (fuel : Nat) (root : NodeId) (base : String) (rs :
   · intro hne
     obtain ⟨info, t, hi, ht, hdes⟩ := h1 hne
     exact ⟨info, t, by rw [hlook]; exact hi, ht, by rw [hdr]; exact hdes⟩
-  · intro hne
-    obtain ⟨info, t, hi, ht, hdes⟩ := h2 hne
+  · intro h20 hne
+    obtain ⟨info, t, hi, ht, hdes⟩ := h2 (hdr.symm.trans h20) hne
     exact ⟨info, t, by rw [hlook]; exact hi, ht, by rw [hdr]; exact hdes⟩
 
 /-! ### in the words of the Spec -/
